@@ -564,10 +564,11 @@ def parseChunk(raw):  # reading transfer encoded raw
         (yield None)
 
     size, sep, exts = line.partition(b';')
-    try:
-        size = int(size.strip().decode('ascii'), 16)
-    except ValueError:  # bad size
-        raise
+    size = bytes(size.strip())
+    if not size or size.strip(b'0123456789abcdefABCDEF'):  # not 1*HEX
+        raise HTTPException("Invalid chunk size '{0}'".format(
+                                            size.decode('iso-8859-1')))
+    size = int(size.decode('ascii'), 16)
 
     if exts:  # parse extensions parameters
         exts = exts.split(b';')
@@ -605,7 +606,7 @@ def parseChunk(raw):  # reading transfer encoded raw
             (yield None)
 
         if line:  # not empty so raise error
-            raise ValueError("Chunk end error. Expected empty got "
+            raise HTTPException("Chunk end error. Expected empty got "
                      "'{0}' instead".format(line.decode('iso-8859-1')))
 
     (yield (size, parms, trails, chunk))
